@@ -1,7 +1,7 @@
 """C18 — pad, cut-off, integer scaling, channel assignment.  Deciding oracle: post-contracts on the four
 real Sequence wrappers."""
 from vmon import gen
-from vmon.checks.common import obs, fail, both_views
+from vmon.checks.common import obs, fail, both_views, random_prefix, apply_prefix
 
 PROP = "C18"
 MONITORS = ["c18"]
@@ -41,7 +41,7 @@ def make_case(rng, i, tier):
     if rng.random() < 0.35:
         spec["pad"] = rng.randrange(0, 200)
     d = gen.end_of(spec)
-    case = {"op": op, "seq": spec}
+    case = {"op": op, "seq": spec, "prefix": random_prefix(rng, n=(1, 3)) if i % 3 == 2 else []}
     if op == "pad":
         case["n"] = rng.choice([0, d, d + 1, max(d - 1, 0), rng.randrange(0, 300), d + 96])
     elif op == "cutoff":
@@ -59,6 +59,7 @@ def make_case(rng, i, tier):
 def run(case, ctx):
     from vmon.monitors import LOG
     s = gen.build_seq(case["seq"])
+    s = apply_prefix(s, case.get("prefix", []))
     before = obs(s)
     op = case["op"]
     boundary = False
